@@ -1,21 +1,7 @@
+/-
+Root of the library. The property files `Iso8583/Props/Cxx.lean` are independent roots
+(built through the `globs` of the lakefile and, one by one, by `bin/check`); they are not
+imported into one environment here because helper lemmas of different property families
+may share names.
+-/
 import Iso8583.Basic
-import Iso8583.Driver
-import Iso8583.Props.C06
-import Iso8583.Props.C07
-import Iso8583.Props.C20
-import Iso8583.Props.C16
-import Iso8583.Props.C13
-import Iso8583.Props.C18
-import Iso8583.Props.C08
-import Iso8583.Props.C19
-import Iso8583.Props.C17
-import Iso8583.Props.C01
-import Iso8583.Props.C05
-import Iso8583.Props.C09
-import Iso8583.Props.C03
-import Iso8583.Props.C02
-import Iso8583.Props.C01Tracks
-import Iso8583.Props.C11
-import Iso8583.Props.C12
-import Iso8583.Props.C04
-import Iso8583.Props.C02Fields
